@@ -77,6 +77,9 @@ CHECKS.update({
 })
 NOT_YET = {}
 
+UINTOPS = {"C01", "C02", "C03", "C05", "C06", "C08", "C09", "C10", "C12", "C13"}
+
+
 def main():
     props = [json.loads(l) for l in open(os.path.join(ROOT, "properties.jsonl"))]
     checks = []
@@ -85,6 +88,8 @@ def main():
         pid = p["id"]
         if pid in CHECKS:
             tech, text, note, ref = CHECKS[pid]
+            if pid in UINTOPS:
+                tech += "; thorough tier adds coverage-guided fuzzing (cargo-fuzz/libFuzzer target uintops, 16 processes, num-bigint oracle inside the target)"
             checks.append({
                 "property_id": pid,
                 "quick_cmd": "./check %s --tier quick" % pid,
@@ -113,6 +118,8 @@ def main():
              "kind_free_text": "generated Rust programs compiled with rustc --emit=link against rlibs built from /repo's working tree (cargo package probe_pkg), executed, diagnostics / stdout interpreted"},
             {"name": "vcore", "path": "/verif/harness", "serves_properties": sorted(CHECKS.keys()),
              "kind_free_text": "Rust crate: proptest-driven structured generation (TestRunner with fixed seeds, shrinking, replay files), exhaustive small-width enumeration, BigUint / reference-codec oracles, evidence writer"},
+            {"name": "fuzz", "path": "/verif/fuzz", "serves_properties": sorted(UINTOPS | {"C14", "C17"}),
+             "kind_free_text": "cargo-fuzz package (libFuzzer, ASan, nightly): targets uintops, divkernels, decoders with the oracle inside the target; run by ./check as a stage of the thorough tier (16 processes, fixed -runs, seeds derived from VERIF_SEED), crash artefacts become replay files"},
         ],
         "checks": checks,
         "not_applicable": na,
